@@ -280,7 +280,7 @@ def evaluate(chk, cases, tag="C23"):
 
 def run(chk):
     chk.prove([front_tr.translate])
-    n = 2400 if chk.thorough else 420
+    n = 9000 if chk.thorough else 640
     cases = load_corpus() + gen_cases(chk, n)
     if chk.thorough:
         cases += exhaustive_token_edits(chk)
@@ -309,7 +309,7 @@ def run(chk):
 # ------------------------------------------------------------------ thorough: all single-token drops/duplications
 def exhaustive_token_edits(chk):
     out = []
-    for gi in range(12):
+    for gi in range(40):
         r = chk.rng.split("exh%d" % gi)
         g = c23_gen.G(r, nrules=r.range(1, 3))
         toks = c23_gen.tokens(g.text())
